@@ -551,7 +551,16 @@ func planC02(prop string, seed uint64, tier string, idx int) *Plan {
 		imgs = append(imgs, g.newImage(-1, share))
 	}
 	if g.r.chance(40) {
-		imgs = append(imgs, g.newIndex([]int{imgs[0]}, -1))
+		ix := g.newIndex([]int{imgs[0]}, -1)
+		imgs = append(imgs, ix)
+		if g.r.chance(50) {
+			// an index of indexes: the manifests below it are only reachable through two levels
+			ix2 := g.newIndex([]int{ix}, -1)
+			imgs = append(imgs, ix2)
+			if g.r.chance(40) {
+				imgs = append(imgs, g.newIndex([]int{ix2, imgs[len(imgs)-3]}, -1))
+			}
+		}
 	}
 	// manifests around the size limit: valid JSON padded with whitespace
 	if k.ManifestLimit > 0 {
@@ -621,6 +630,10 @@ func planC03(prop string, seed uint64, tier string, idx int) *Plan {
 			share = imgs[0]
 		}
 		imgs = append(imgs, g.newImage(-1, share))
+	}
+	if g.r.chance(50) {
+		// an index over manifests that may already carry tags of their own
+		imgs = append(imgs, g.newIndex([]int{imgs[0], imgs[1]}, -1))
 	}
 	n := g.scale(g.r.between(6, 22))
 	for i := 0; i < n; i++ {
